@@ -9,6 +9,13 @@ import VsgModel.Wire
 import VsgModel.Generated.Rules
 import VsgModel.Generated.ClassUids
 import VsgProofs.Lemmas.TokenMap
+import VsgModel.Engine.Extract2      -- WP3
+import VsgProofs.Lemmas.Extract2Thms  -- WP3
+import VsgProofs.Lemmas.Extract2Ie    -- WP3
+import VsgProofs.Lemmas.Extract3Thms  -- WP3
+import VsgProofs.Lemmas.Extract3If    -- WP3
+import VsgProofs.Lemmas.Extract4Thms  -- WP3
+import VsgProofs.Lemmas.Extract5Thms  -- WP3
 import VsgProofs.Properties.C07
 namespace Vsgm.C18
 open Vsgm Vsgm.TM Vsgm.TM.Lemmas
@@ -675,5 +682,518 @@ example : (processTokens wView.uid [1, 0, 2]).dmap.get crKey = [1] := by decide 
 example : (tokensMatching [1, 0, 2] (processTokens wView.uid [1, 0, 2]) [⟨some ("w", "y"), 1⟩]).toOption.map
     (fun r => r.map (fun t => (t.start, t.line, t.toks))) = some [(some 0, 1, [1])] := by decide +kernel
 example : Plain crKey := plain_cr
+
+end Vsgm.C18
+
+/-! =====================================================================================
+    WP3 — the extractors of `VsgModel/Engine/Extract2.lean` (proofs: `Lemmas/Extract2*.lean`)
+    ===================================================================================== -/
+namespace Vsgm.C18
+open Vsgm Vsgm.TM Vsgm.TM.Lemmas Vsgm.TM.X Vsgm.TM.X.Lemmas
+
+variable {α : Type}
+
+/-- **get_line_succeeding_line** with a fresh index: the region starts right after the line break
+    that ends line `iLine`; the recorded line is `iLine + 1` -/
+theorem lineSucceeding_sliceExact (uid : α → Option Key) (f : List α) (line num : Nat) (t : Toi α)
+    (h : lineSucceeding f (processTokens uid f) line num = .ok (some t)) : t.Exact f ∧ t.line = line + 1 :=
+  lineSucceeding_exact uid f line num t h
+
+/-- **get_line_below_line_ending_with_token** -/
+theorem lineBelowLineEndingWith_sliceExact (uid : α → Option Key) (f : List α) (cs : List Cls) (r : List (Toi α))
+    (h : lineBelowLineEndingWith f (processTokens uid f) cs = .ok r) : ∀ t ∈ r, t.Exact f :=
+  lineBelowLineEndingWith_exact uid f cs r h
+
+/-- **get_line_below_line_ending_with_token_with_hierarchy**: every region it hands out (it can
+    also append `None`) is a slice -/
+theorem lineBelowLineEndingWithHier_sliceExact (uid : α → Option Key) (f : List α) (hier : α → Option Int)
+    (cs : List Cls) (lh : List Int) (r : List (Option (Toi α)))
+    (h : lineBelowLineEndingWithHier f (processTokens uid f) hier cs lh = .ok r) : ∀ t, some t ∈ r → t.Exact f :=
+  lineBelowLineEndingWithHier_exact uid f hier cs lh r h
+
+/-- **get_line_preceding_line**, both modes (with `bSkipComments` the region is the last line
+    above that is not made of whitespace / comments only) -/
+theorem linePreceding2_sliceExact (uid : α → Option Key) (f : List α) (line n : Nat) (skip : Bool) (t : Toi α)
+    (h : linePreceding2 f (processTokens uid f) line n skip = .ok t) : t.Exact f := by
+  unfold linePreceding2 at h
+  split at h
+  · exact linePrecedingSkip_exact uid f line t h
+  · exact (linePreceding_sliceExact uid f line n t h).1
+
+/-- **get_line_above_line_starting_with_token**, both modes -/
+theorem lineAbove_sliceExact (uid : α → Option Key) (f : List α) (cs : List Cls) (incl : Bool) (r : List (Toi α))
+    (h : lineAbove f (processTokens uid f) cs incl = .ok r) : ∀ t ∈ r, t.Exact f := by
+  intro t ht
+  unfold lineAbove at h
+  simp only [bind_ok] at h
+  obtain ⟨lines, _, h⟩ := h
+  obtain ⟨l, _, hb⟩ := mem_mapE _ _ _ h t ht
+  exact linePreceding2_sliceExact uid f l 1 incl t hb
+
+/-- **get_line_above_line_starting_with_token_with_hierarchy** -/
+theorem lineAboveHier_sliceExact (uid : α → Option Key) (f : List α) (hier : α → Option Int) (cs : List Cls)
+    (lh : List Int) (incl : Bool) (r : List (Toi α))
+    (h : lineAboveHier f (processTokens uid f) hier cs lh incl = .ok r) : ∀ t ∈ r, t.Exact f := by
+  intro t ht
+  unfold lineAboveHier at h
+  simp only [bind_ok] at h
+  obtain ⟨idxs, _, lines, _, h⟩ := h
+  obtain ⟨l, _, hb⟩ := mem_mapE _ _ _ h t ht
+  exact linePreceding2_sliceExact uid f l 1 incl t hb
+
+/-- **get_tokens_bounded_by_unless_between** -/
+theorem boundedByUnless_sliceExact (uid : α → Option Key) (f : List α) (a b : Option Key)
+    (un : List (Option Key × Option Key)) (r : List (Toi α))
+    (h : boundedByUnless f (processTokens uid f) a b un = .ok r) : ∀ t ∈ r, t.Exact f :=
+  fun t ht => (boundedByUnless_exact uid f a b un r h t ht).1
+
+theorem boundedByUnless_line (uid : α → Option Key) (f : List α) (a b : Option Key)
+    (un : List (Option Key × Option Key)) (r : List (Toi α))
+    (h : boundedByUnless f (processTokens uid f) a b un = .ok r) :
+    ∀ t ∈ r, ∃ s : Nat, t.start = some (s : Int) ∧ t.line = lineNo uid f s :=
+  fun t ht => (boundedByUnless_exact uid f a b un r h t ht).2
+
+/-- **get_tokens_between_tokens_inclusive_while_storing_value_from_token** -/
+theorem storingValue_sliceExact (uid : α → Option Key) (f : List α) (l r v : Option Key) (res : List (Toi α))
+    (h : storingValue f (processTokens uid f) l r v = .ok res) : ∀ t ∈ res, t.Exact f :=
+  fun t ht => (storingValue_exact uid f l r v res h t ht).1
+
+theorem storingValue_line (uid : α → Option Key) (f : List α) (l r v : Option Key) (res : List (Toi α))
+    (h : storingValue f (processTokens uid f) l r v = .ok res) :
+    ∀ t ∈ res, ∃ s : Nat, t.start = some (s : Int) ∧ t.line = lineNo uid f s :=
+  fun t ht => (storingValue_exact uid f l r v res h t ht).2
+
+/-- **get_interface_elements_between_tokens**, for every `isinstance` relation: each element — cut
+    at the semicolons, trailing whitespace / line breaks / comments of the last one stripped — is the
+    slice that starts at the recorded position -/
+theorem interfaceElements_sliceExact (V : View α) (P : PCls) (semi : Nat) (f : List α) (a b : Option Key)
+    (r : List (Toi α)) (h : interfaceElements V P semi f (processTokens V.uid f) a b = .ok r) : ∀ t ∈ r, t.Exact f :=
+  interfaceElements_exact V P semi f a b r h
+
+/-- **get_tokens_between_non_whitespace_token_and_token** -/
+theorem betweenNonWsAndToken_sliceExact (uid : α → Option Key) (f : List α) (right : Option Key) (r : List (Toi α))
+    (h : betweenNonWsAndToken f (processTokens uid f) right = .ok r) : ∀ t ∈ r, t.Exact f :=
+  fun t ht => (betweenNonWsAndToken_exact uid f right r h t ht).1
+
+theorem betweenNonWsAndToken_line (uid : α → Option Key) (f : List α) (right : Option Key) (r : List (Toi α))
+    (h : betweenNonWsAndToken f (processTokens uid f) right = .ok r) :
+    ∀ t ∈ r, ∃ s : Nat, t.start = some (s : Int) ∧ t.line = lineNo uid f s :=
+  fun t ht => (betweenNonWsAndToken_exact uid f right r h t ht).2
+
+/-- **get_tokens_from_line**: a slice (empty, after the last line break, for line 1 — Python's
+    `l[-1]`); the line number is the one asked for -/
+theorem tokensFromLine_sliceExact (uid : α → Option Key) (f : List α) (line : Nat) (t : Toi α)
+    (h : tokensFromLine f (processTokens uid f) line = .ok t) : t.Exact f ∧ t.line = line :=
+  tokensFromLine_exact uid f line t h
+
+/-- **get_n_tokens_before_and_after_tokens**, partial: the recorded start is `i - n` for a matched
+    position `i` whose line is recorded; the region is a slice when `n ≤ i`.  The excluded case is
+    real for the model of the code as written: `nBeforeAndAfter_negative_start` -/
+theorem nBeforeAndAfter_sliceExact_partial (uid : α → Option Key) (f : List α) (n : Nat) (cs : List Cls)
+    (r : List (Toi α)) (h : nBeforeAndAfter f (processTokens uid f) n cs = .ok r) :
+    ∀ t ∈ r, ∃ i : Nat, t.start = some ((i : Int) - (n : Int)) ∧ t.line = lineNo uid f i ∧ (n ≤ i → t.Exact f) :=
+  nBeforeAndAfter_exact_partial uid f n cs r h
+
+/-- a matched token closer than `n` to the beginning of the file: start `-1`, and Python's
+    negative slice bound makes the token list `l[-1:2] = []` -/
+theorem nBeforeAndAfter_negative_start :
+    (nBeforeAndAfter [1, 0, 2] (processTokens wView.uid [1, 0, 2]) 1 [⟨some ("w", "y"), 1⟩]).toOption.map
+      (fun r => r.map (fun t => (t.start, t.line, t.toks))) = some [(some (-1), 1, [])] := by
+  decide +kernel
+
+/-- **get_tokens_bounded_by_token_when_between_tokens** -/
+theorem boundedWhenBetween_sliceExact (uid : α → Option Key) (f : List α) (l r a b : Option Key) (tw : Bool)
+    (res : List (Toi α)) (h : boundedWhenBetween f (processTokens uid f) l r a b tw = .ok res) : ∀ t ∈ res, t.Exact f :=
+  fun t ht => (boundedWhenBetween_exact uid f l r a b tw res h t ht).1
+
+theorem boundedWhenBetween_line (uid : α → Option Key) (f : List α) (l r a b : Option Key) (tw : Bool)
+    (res : List (Toi α)) (h : boundedWhenBetween f (processTokens uid f) l r a b tw = .ok res) :
+    ∀ t ∈ res, ∃ s : Nat, t.start = some (s : Int) ∧ t.line = lineNo uid f s :=
+  fun t ht => (boundedWhenBetween_exact uid f l r a b tw res h t ht).2
+
+/-- … whose flag `include_trailing_whitespace` changes nothing (the code calls
+    `is_token_at_index(iRight + 1, parser.whitespace)` with the arguments swapped) -/
+theorem boundedWhenBetween_flag_ignored (f : List α) (ix : Index) (l r a b : Option Key) (tw : Bool) :
+    boundedWhenBetween f ix l r a b tw = boundedWhenBetween f ix l r a b false := rfl
+
+/-! #### non-vacuity (WP3): 0 line break, 1 whitespace, 2 comment, 3 identifier, 4 `(`, 5 `)`, 6 `;`,
+    7 blank line, 8 keyword; `isinstance` = same number -/
+
+def xView : View Nat where
+  uid n := match n with
+    | 0 => some crKey
+    | 1 => some wsKey
+    | 2 => some commentKey
+    | 3 => some ("w", "id")
+    | 4 => some ("w", "open")
+    | 5 => some ("w", "close")
+    | 6 => some ("w", "semi")
+    | 7 => some blankKey
+    | _ => some ("w", "kw")
+  inst n p := n == p
+  isCr n := n == 0
+  isBof n := n == 99
+  len _ := 1
+  bof := 99
+
+def xP : PCls := { ws := 1, cr := 0, comment := 2, blank := 7, preproc := 98 }
+
+/-- `kw ( id ; ws id cr ) ; cr  cr  ws kw cr` -/
+def xFile : List Nat := [8, 4, 3, 6, 1, 3, 0, 5, 6, 0, 7, 0, 1, 8, 0]
+
+def xShow (r : Except PyErr (List (Toi Nat))) : Option (List (Option Int × Nat × List Nat)) :=
+  r.toOption.map fun l => l.map fun t => (t.start, t.line, t.toks)
+
+/-- `id cr kw cr` and `id cr kw` (`decide` cannot run `List.mergeSort` on two or more elements: every sorted
+    list of the examples has at most one) -/
+def yFile : List Nat := [3, 0, 8, 0]
+def zFile : List Nat := [3, 0, 8]
+
+example : (lineSucceeding xFile (processTokens xView.uid xFile) 1 1).toOption.map (fun o => o.map fun t => (t.start, t.line, t.toks))
+    = some (some (some 7, 2, [5, 6])) := by decide +kernel
+example : xShow (lineBelowLineEndingWith yFile (processTokens xView.uid yFile) [⟨some ("w", "id"), 3⟩])
+    = some [(some 2, 2, [8])] := by decide +kernel
+example : (lineBelowLineEndingWithHier yFile (processTokens xView.uid yFile) (fun _ => some 0) [⟨some ("w", "id"), 3⟩] [0]).toOption.map
+    (fun l => l.map fun o => o.map fun t => (t.start, t.line, t.toks)) = some [some (some 2, 2, [8])] := by decide +kernel
+example : (linePreceding2 zFile (processTokens xView.uid zFile) 2 1 true).toOption.map (fun t => (t.start, t.line, t.toks))
+    = some (some 0, 2, [3]) := by decide +kernel
+example : xShow (lineAbove zFile (processTokens xView.uid zFile) [⟨some ("w", "kw"), 8⟩] true)
+    = some [(some 0, 2, [3])] := by decide +kernel
+example : xShow (lineAboveHier zFile (processTokens xView.uid zFile) (fun _ => some 0) [⟨some ("w", "kw"), 8⟩] [0] false)
+    = some [(some 0, 2, [3])] := by decide +kernel
+example : xShow (boundedByUnless xFile (processTokens xView.uid xFile) (some ("w", "open")) (some ("w", "close")) [])
+    = some [(some 1, 1, [4, 3, 6, 1, 3, 0, 5])] := by decide +kernel
+example : (storingValue xFile (processTokens xView.uid xFile) (some ("w", "open")) (some ("w", "close")) (some ("w", "kw"))).toOption.map
+    (fun l => l.map fun t => (t.start, t.line, t.value)) = some [(some 1, 1, some 0)] := by decide +kernel
+example : xShow (interfaceElements xView xP 6 xFile (processTokens xView.uid xFile) (some ("w", "open")) (some ("w", "close")))
+    = some [(some 2, 1, [3]), (some 5, 1, [3])] := by decide +kernel
+example : xShow (betweenNonWsAndToken xFile (processTokens xView.uid xFile) (some ("w", "close")))
+    = some [(some 5, 1, [3, 0, 5])] := by decide +kernel
+example : (tokensFromLine xFile (processTokens xView.uid xFile) 2).toOption.map (fun t => (t.start, t.line, t.toks))
+    = some (some 7, 2, [5, 6, 0]) := by decide +kernel
+example : xShow (nBeforeAndAfter xFile (processTokens xView.uid xFile) 1 [⟨some ("w", "close"), 5⟩])
+    = some [(some 6, 2, [0, 5, 6])] := by decide +kernel
+example : xShow (boundedWhenBetween [4, 3, 6, 5, 0] (processTokens xView.uid [4, 3, 6, 5, 0]) (some ("w", "id")) (some ("w", "semi"))
+      (some ("w", "open")) (some ("w", "close")) true) = some [(some 1, 1, [3, 6])] := by decide +kernel
+
+end Vsgm.C18
+
+/-! =====================================================================================
+    WP3, second part — the extractors of `VsgModel/Engine/Extract3.lean` (proofs: `Lemmas/Extract3*.lean`)
+    ===================================================================================== -/
+namespace Vsgm.C18
+open Vsgm Vsgm.TM Vsgm.TM.Lemmas Vsgm.TM.X Vsgm.TM.X.Lemmas
+
+variable {α : Type}
+
+/-- **get_tokens_from_beginning_of_line_containing_token_to_the_next_non_whitespace_token_to_the_right**:
+    a slice that starts at the line break before the line of the matched token (or at the token on
+    the first line); the recorded line is the line of the MATCHED token, `start + iTokenIndex` -/
+theorem bolToNextNonWs_sliceExact (uid : α → Option Key) (f : List α) (tok : Option Key) (r : List (Toi α))
+    (h : bolToNextNonWs f (processTokens uid f) tok = .ok r) : ∀ t ∈ r, t.Exact f :=
+  fun t ht => (bolToNextNonWs_exact uid f tok r h t ht).1
+
+theorem bolToNextNonWs_line (uid : α → Option Key) (f : List α) (tok : Option Key) (r : List (Toi α))
+    (h : bolToNextNonWs f (processTokens uid f) tok = .ok r) :
+    ∀ t ∈ r, ∃ s v : Int, t.start = some s ∧ t.value = some v ∧ t.line = lineNo uid f (s + v).toNat :=
+  fun t ht => (bolToNextNonWs_exact uid f tok r h t ht).2
+
+/-- **get_token_and_n_tokens_before_it_in_between_tokens**: unlike `get_token_and_n_tokens_before_it`
+    the recorded line is the line of the START position -/
+theorem nBeforeInBetween_sliceExact (uid : α → Option Key) (f : List α) (cs : List Cls) (n : Nat) (a b : Option Key)
+    (r : List (Toi α)) (h : nBeforeInBetween f (processTokens uid f) cs n a b = .ok r) :
+    ∀ t ∈ r, t.Exact f ∧ ∃ s : Nat, t.start = some (s : Int) ∧ t.line = lineNo uid f s :=
+  windowsBefore_exact uid f n _ r (fresh_filterBetween_lt uid f cs a b) h
+
+/-- **get_token_and_n_tokens_before_it_in_between_tokens_unless_between_tokens** -/
+theorem nBeforeInBetweenUnless_sliceExact (uid : α → Option Key) (f : List α) (cs : List Cls) (n : Nat) (a b : Option Key)
+    (un : List (Option Key × Option Key)) (r : List (Toi α))
+    (h : nBeforeInBetweenUnless f (processTokens uid f) cs n a b un = .ok r) :
+    ∀ t ∈ r, t.Exact f ∧ ∃ s : Nat, t.start = some (s : Int) ∧ t.line = lineNo uid f s :=
+  windowsBefore_exact uid f n _ r
+    (fun i hi => fresh_filterBetween_lt uid f cs a b i (mem_filterUnless _ _ un i hi)) h
+
+/-- **get_token_and_n_tokens_before_it_in_between_tokens_unless_token_is_found** -/
+theorem nBeforeInBetweenUnlessStop_sliceExact (uid : α → Option Key) (f : List α) (cs : List Cls) (n : Nat)
+    (a b stop : Option Key) (r : List (Toi α))
+    (h : nBeforeInBetweenUnlessStop f (processTokens uid f) cs n a b stop = .ok r) :
+    ∀ t ∈ r, t.Exact f ∧ ∃ s : Nat, t.start = some (s : Int) ∧ t.line = lineNo uid f s :=
+  windowsBefore_exact uid f n _ r (fresh_filterBetweenUnlessStop_lt uid f cs a b stop) h
+
+/-- **get_token_and_n_tokens_after_it_when_between_tokens** -/
+theorem nAfterWhenBetween_sliceExact (uid : α → Option Key) (f : List α) (cs : List Cls) (n : Nat) (a b : Option Key)
+    (r : List (Toi α)) (h : nAfterWhenBetween f (processTokens uid f) cs n a b = .ok r) :
+    ∀ t ∈ r, t.Exact f ∧ ∃ s : Nat, t.start = some (s : Int) ∧ t.line = lineNo uid f s :=
+  windowsAfter_exact uid f n _ r (fresh_filterBetween_lt uid f cs a b) h
+
+/-- **get_token_and_n_tokens_after_it_when_between_tokens_unless_between_tokens** -/
+theorem nAfterWhenBetweenUnless_sliceExact (uid : α → Option Key) (f : List α) (cs : List Cls) (n : Nat) (a b : Option Key)
+    (un : List (Option Key × Option Key)) (r : List (Toi α))
+    (h : nAfterWhenBetweenUnless f (processTokens uid f) cs n a b un = .ok r) :
+    ∀ t ∈ r, t.Exact f ∧ ∃ s : Nat, t.start = some (s : Int) ∧ t.line = lineNo uid f s :=
+  windowsAfter_exact uid f n _ r
+    (fun i hi => fresh_filterBetween_lt uid f cs a b i (mem_filterUnless _ _ un i hi)) h
+
+/-- **get_tokens_matching_in_range_bounded_by_tokens_unless_between_tokens** (stale index or not) -/
+theorem matchingInRangeUnless_sliceExact (f : List α) (ix : Index) (cs : List Cls) (a b : Option Key)
+    (un : List (Option Key × Option Key)) (r : List (Toi α))
+    (h : matchingInRangeUnless f ix cs a b un = .ok r) : ∀ t ∈ r, t.Exact f :=
+  singles_exact f ix _ r h
+
+theorem matchingInRangeUnless_line (uid : α → Option Key) (f : List α) (cs : List Cls) (a b : Option Key)
+    (un : List (Option Key × Option Key)) (r : List (Toi α))
+    (h : matchingInRangeUnless f (processTokens uid f) cs a b un = .ok r) :
+    ∀ t ∈ r, ∃ s : Nat, t.start = some (s : Int) ∧ t.line = lineNo uid f s :=
+  singles_line uid f _ r h
+
+/-- **get_n_tokens_before_and_after_tokens_bounded_by_tokens**, partial (guard `n ≤ i`) -/
+theorem nBeforeAndAfterBounded_sliceExact_partial (uid : α → Option Key) (f : List α) (n : Nat) (cs : List Cls)
+    (a b : Option Key) (r : List (Toi α)) (h : nBeforeAndAfterBounded f (processTokens uid f) n cs a b = .ok r) :
+    ∀ t ∈ r, ∃ i : Nat, t.start = some ((i : Int) - (n : Int)) ∧ t.line = lineNo uid f i ∧ (n ≤ i → t.Exact f) :=
+  nBeforeAndAfterBounded_exact_partial uid f n cs a b r h
+
+/-- `( id ) cr` with `n = 2`: start `-1`, tokens `l[-1:4]` = the last token of the file -/
+theorem nBeforeAndAfterBounded_negative_start :
+    (nBeforeAndAfterBounded [4, 3, 5, 0] (processTokens xView.uid [4, 3, 5, 0]) 2 [⟨some ("w", "id"), 3⟩]
+        (some ("w", "open")) (some ("w", "close"))).toOption.map
+      (fun r => r.map (fun t => (t.start, t.line, t.toks))) = some [(some (-1), 1, [0])] := by
+  decide +kernel
+
+/-- **get_line_which_includes_tokens**: a slice; the recorded line is the line of the matched token,
+    which sits at `start + token_index` -/
+theorem lineWhichIncludes_sliceExact (uid : α → Option Key) (f : List α) (cs : List Cls) (r : List (Toi α))
+    (h : lineWhichIncludes f (processTokens uid f) cs = .ok r) : ∀ t ∈ r, t.Exact f :=
+  fun t ht => (lineWhichIncludes_exact uid f cs r h t ht).1
+
+theorem lineWhichIncludes_line (uid : α → Option Key) (f : List α) (cs : List Cls) (r : List (Toi α))
+    (h : lineWhichIncludes f (processTokens uid f) cs = .ok r) :
+    ∀ t ∈ r, ∃ s v : Int, t.start = some s ∧ t.value = some v ∧ t.line = lineNo uid f (s + v).toNat :=
+  fun t ht => (lineWhichIncludes_exact uid f cs r h t ht).2
+
+/-- … but on the FIRST line of a file the region does not contain the token it was asked for:
+    `get_index_of_carriage_return_before_index` answers with the position itself (its `l[-1]`), the
+    region starts after the token and `token_index` is `-1` -/
+theorem lineWhichIncludes_first_line :
+    (lineWhichIncludes [4, 3, 6, 5, 0] (processTokens xView.uid [4, 3, 6, 5, 0]) [⟨some ("w", "semi"), 6⟩]).toOption.map
+      (fun r => r.map (fun t => (t.start, t.line, t.toks, t.value))) = some [(some 3, 1, [5], some (-1))] := by
+  decide +kernel
+
+/-- **get_sequence_of_tokens_matching_bounded_by_tokens** (stale index or not: the first token of
+    the sequence is read at the recorded position) -/
+theorem sequenceMatchingBounded_sliceExact (V : View α) (f : List α) (ix : Index) (cs : List Cls) (a b : Option Key)
+    (r : List (Toi α)) (h : sequenceMatchingBounded V f ix cs a b = .ok r) : ∀ t ∈ r, t.Exact f :=
+  sequenceMatchingBounded_exact V f ix cs a b r h
+
+theorem sequenceMatchingBounded_line (V : View α) (f : List α) (cs : List Cls) (a b : Option Key)
+    (r : List (Toi α)) (h : sequenceMatchingBounded V f (processTokens V.uid f) cs a b = .ok r) :
+    ∀ t ∈ r, ∃ s : Nat, t.start = some (s : Int) ∧ t.line = lineNo V.uid f s :=
+  Vsgm.TM.X.Lemmas.sequenceMatchingBounded_line V f cs a b r h
+
+/-- **get_tokens_matching_not_at_beginning_or_ending_of_line** -/
+theorem matchingNotAtLineEnds_sliceExact (f : List α) (ix : Index) (cs : List Cls) (r : List (Toi α))
+    (h : matchingNotAtLineEnds f ix cs = .ok r) : ∀ t ∈ r, t.Exact f :=
+  singles_exact f ix _ r h
+
+theorem matchingNotAtLineEnds_line (uid : α → Option Key) (f : List α) (cs : List Cls) (r : List (Toi α))
+    (h : matchingNotAtLineEnds f (processTokens uid f) cs = .ok r) :
+    ∀ t ∈ r, ∃ s : Nat, t.start = some (s : Int) ∧ t.line = lineNo uid f s :=
+  singles_line uid f _ r h
+
+/-- **get_tokens_from_non_whitespace_token_until_tokens**, partial: a region that has a start is the
+    slice at it.  The start can be `None`: `fromNonWsUntil_start_none` -/
+theorem fromNonWsUntil_sliceExact_partial (uid : α → Option Key) (f : List α) (cs : List Cls) (r : List (Toi α))
+    (h : fromNonWsUntil f (processTokens uid f) cs = .ok r) : ∀ t ∈ r, t.start ≠ none → t.Exact f :=
+  fromNonWsUntil_exact_partial uid f cs r h
+
+/-- `id ; cr`: the backwards search for a non-whitespace token never looks at position 0
+    (`range(i - 1, 0, -1)`), so the region before the `;` at position 1 gets the start `None` -/
+theorem fromNonWsUntil_start_none :
+    (fromNonWsUntil [3, 6, 0] (processTokens xView.uid [3, 6, 0]) [⟨some ("w", "semi"), 6⟩]).toOption.map
+      (fun r => r.map (fun t => (t.start, t.line, t.toks))) = some [(none, 1, [3])] := by
+  decide +kernel
+
+/-- **get_if_statement_conditions**, partial: the recorded line is the line of the recorded start;
+    the region is the slice at its start without `fRemoveWhitespace`, and with it whenever the
+    region contains anything but whitespace / line breaks / comments.  Otherwise:
+    `ifConditions_blank_condition` -/
+theorem ifConditions_sliceExact_partial (V : View α) (P : PCls) (f : List α) (ifK elsifK thenK : Option Key) (rm : Bool)
+    (r : List (Toi α)) (h : ifConditions V P f (processTokens V.uid f) ifK elsifK thenK rm = .ok r) :
+    ∀ t ∈ r, (∃ s : Int, t.start = some s ∧ t.line = lineNo V.uid f s.toNat) ∧
+      ((rm = false ∨ ∃ x ∈ t.toks, isWsOrComment V P x = false) → t.Exact f) :=
+  ifConditions_exact_partial V P f ifK elsifK thenK rm r h
+
+/-- `if ws comment then cr`: `remove_leading_whitespace_and_comments` falls through its `for … else`
+    and returns the position of the `if` keyword itself, `remove_trailing_whitespace_and_comments`
+    returns the list it reversed in place: start 0, tokens `[comment, ws]` -/
+theorem ifConditions_blank_condition :
+    (ifConditions xView xP [8, 1, 2, 5, 0] (processTokens xView.uid [8, 1, 2, 5, 0]) (some ("w", "kw")) (some ("w", "open"))
+        (some ("w", "close")) true).toOption.map
+      (fun r => r.map (fun t => (t.start, t.line, t.toks))) = some [(some 0, 1, [2, 1])] := by
+  decide +kernel
+
+/-- **get_association_elements_between_tokens**: a second `formal_part` token inside one element
+    moves the recorded start but keeps the stored tokens — start 2, tokens from position 1 -/
+theorem associationElements_restart :
+    (associationElements xView { formal := 3, actual := 8, comma := 6, cr := 0 } [4, 3, 3, 6, 5, 0]
+        (processTokens xView.uid [4, 3, 3, 6, 5, 0]) (some ("w", "open")) (some ("w", "close"))).toOption.map
+      (fun o => o.map fun r => r.map (fun t => (t.start, t.line, t.toks))) = some (some [(some 2, 1, [3, 3, 6])]) := by
+  decide +kernel
+
+/-! #### non-vacuity (WP3, second part) -/
+
+def wFile : List Nat := [4, 3, 6, 5, 0]
+
+example : (bolToNextNonWs xFile (processTokens xView.uid xFile) (some ("w", "close"))).toOption.map
+    (fun r => r.map (fun t => (t.start, t.line, t.toks, t.value))) = some [(some 6, 2, [0, 5, 6], some 1)] := by decide +kernel
+example : xShow (nBeforeInBetween wFile (processTokens xView.uid wFile) [⟨some ("w", "semi"), 6⟩] 1 (some ("w", "open")) (some ("w", "close")))
+    = some [(some 1, 1, [3, 6])] := by decide +kernel
+example : xShow (nBeforeInBetweenUnless wFile (processTokens xView.uid wFile) [⟨some ("w", "semi"), 6⟩] 1 (some ("w", "open")) (some ("w", "close")) [])
+    = some [(some 1, 1, [3, 6])] := by decide +kernel
+example : xShow (nBeforeInBetweenUnlessStop wFile (processTokens xView.uid wFile) [⟨some ("w", "semi"), 6⟩] 1 (some ("w", "open"))
+    (some ("w", "close")) (some ("w", "kw"))) = some [(some 1, 1, [3, 6])] := by decide +kernel
+example : xShow (nAfterWhenBetween wFile (processTokens xView.uid wFile) [⟨some ("w", "id"), 3⟩] 1 (some ("w", "open")) (some ("w", "close")))
+    = some [(some 1, 1, [3, 6])] := by decide +kernel
+example : xShow (nAfterWhenBetweenUnless wFile (processTokens xView.uid wFile) [⟨some ("w", "id"), 3⟩] 1 (some ("w", "open")) (some ("w", "close")) [])
+    = some [(some 1, 1, [3, 6])] := by decide +kernel
+example : xShow (matchingInRangeUnless wFile (processTokens xView.uid wFile) [⟨some ("w", "id"), 3⟩] (some ("w", "open")) (some ("w", "close")) [])
+    = some [(some 1, 1, [3])] := by decide +kernel
+example : xShow (nBeforeAndAfterBounded wFile (processTokens xView.uid wFile) 1 [⟨some ("w", "id"), 3⟩] (some ("w", "open")) (some ("w", "close")))
+    = some [(some 0, 1, [4, 3, 6])] := by decide +kernel
+example : (lineWhichIncludes xFile (processTokens xView.uid xFile) [⟨some ("w", "close"), 5⟩]).toOption.map
+    (fun r => r.map (fun t => (t.start, t.line, t.toks, t.value))) = some [(some 7, 2, [5, 6], some 0)] := by decide +kernel
+example : xShow (sequenceMatchingBounded xView wFile (processTokens xView.uid wFile) [⟨some ("w", "id"), 3⟩, ⟨some ("w", "semi"), 6⟩]
+    (some ("w", "open")) (some ("w", "close"))) = some [(some 1, 1, [3, 6])] := by decide +kernel
+example : (associationElements xView { formal := 3, actual := 8, comma := 6, cr := 0 } [4, 3, 1, 8, 6, 3, 5, 0]
+      (processTokens xView.uid [4, 3, 1, 8, 6, 3, 5, 0]) (some ("w", "open")) (some ("w", "close"))).toOption.map
+    (fun o => o.map fun r => r.map (fun t => (t.start, t.line, t.toks))) = some (some [(some 1, 1, [3, 1, 8, 6]), (some 5, 1, [3, 5])]) := by
+  decide +kernel
+example : xShow (matchingNotAtLineEnds wFile (processTokens xView.uid wFile) [⟨some ("w", "semi"), 6⟩])
+    = some [(some 2, 1, [6])] := by decide +kernel
+example : xShow (fromNonWsUntil wFile (processTokens xView.uid wFile) [⟨some ("w", "close"), 5⟩])
+    = some [(some 2, 1, [6])] := by decide +kernel
+example : xShow (ifConditions xView xP [8, 1, 3, 1, 5, 0] (processTokens xView.uid [8, 1, 3, 1, 5, 0]) (some ("w", "kw")) (some ("w", "open"))
+    (some ("w", "close")) true) = some [(some 2, 1, [3])] := by decide +kernel
+
+end Vsgm.C18
+
+/-! =====================================================================================
+    WP3, third part — the extractors of `VsgModel/Engine/Extract4.lean` (proofs: `Lemmas/Extract4Thms.lean`)
+    ===================================================================================== -/
+namespace Vsgm.C18
+open Vsgm Vsgm.TM Vsgm.TM.Lemmas Vsgm.TM.X Vsgm.TM.X.Lemmas
+
+variable {α : Type}
+
+/-- **get_blank_lines_above_line_starting_with_token**: a slice (it starts at the line break that
+    ends the last non-blank line above); the recorded line is the line of a MATCHED token -/
+theorem blankAbove_sliceExact (uid : α → Option Key) (f : List α) (cs : List Cls) (r : List (Toi α))
+    (h : blankAbove f (processTokens uid f) cs = .ok r) : ∀ t ∈ r, t.Exact f :=
+  fun t ht => (blankLinesAboveIdx_exact uid f _ r h t ht).1
+
+theorem blankAbove_line (uid : α → Option Key) (f : List α) (cs : List Cls) (r : List (Toi α))
+    (h : blankAbove f (processTokens uid f) cs = .ok r) :
+    ∀ t ∈ r, ∃ i ∈ idxsOfList (processTokens uid f) cs, t.line = lineNo uid f i := by
+  intro t ht
+  obtain ⟨i, hi, hl⟩ := (blankLinesAboveIdx_exact uid f _ r h t ht).2
+  exact ⟨i, (List.mem_filter.mp hi).1, hl⟩
+
+/-- **get_blank_lines_above_line_starting_with_token_when_between_tokens** -/
+theorem blankAboveWhenBetween_sliceExact (uid : α → Option Key) (f : List α) (cs : List Cls) (a b : Option Key)
+    (r : List (Toi α)) (h : blankAboveWhenBetween f (processTokens uid f) cs a b = .ok r) : ∀ t ∈ r, t.Exact f :=
+  fun t ht => (blankLinesAboveIdx_exact uid f _ r h t ht).1
+
+/-- **get_blank_lines_below_line_ending_with_token** (with or without hierarchy limits) -/
+theorem blankBelow_sliceExact (uid : α → Option Key) (f : List α) (hier : α → Option Int) (cs : List Cls)
+    (lh : Option (List Int)) (r : List (Toi α)) (h : blankBelow f (processTokens uid f) hier cs lh = .ok r) :
+    ∀ t ∈ r, t.Exact f :=
+  blankBelow_exact uid f hier cs lh r h
+
+/-- **get_tokens_at_beginning_of_line_matching_unless_between_tokens** -/
+theorem bolUnless_sliceExact (uid : α → Option Key) (f : List α) (cs : List Cls) (un : List (Option Key × Option Key))
+    (r : List (Toi α)) (h : bolUnless f (processTokens uid f) cs un = .ok r) : ∀ t ∈ r, t.Exact f :=
+  bolAt_exact uid f _ r h
+
+/-- **get_tokens_at_beginning_of_line_matching_between_tokens** -/
+theorem bolBetween_sliceExact (uid : α → Option Key) (f : List α) (cs : List Cls) (a b : Option Key) (incl : Bool)
+    (r : List (Toi α)) (h : bolBetween f (processTokens uid f) cs a b incl = .ok r) : ∀ t ∈ r, t.Exact f :=
+  bolAt_exact uid f _ r h
+
+/-- **get_tokens_at_beginning_of_line_matching_between_tokens_unless_between_tokens** -/
+theorem bolBetweenUnless_sliceExact (uid : α → Option Key) (f : List α) (cs : List Cls) (a b : Option Key)
+    (un : List (Option Key × Option Key)) (incl : Bool) (r : List (Toi α))
+    (h : bolBetweenUnless f (processTokens uid f) cs a b un incl = .ok r) : ∀ t ∈ r, t.Exact f :=
+  bolAt_exact uid f _ r h
+
+/-- **get_function_subprogram_body / get_procedure_subprogram_body** (and get_subprogram_body):
+    whenever the code gets as far as returning, every region is the slice at its start and carries
+    the line of its start -/
+theorem subprogramBodyOf_sliceExact (V : View α) (f : List α) (K : SubKeys) (kw desig : Nat) (r : List (Toi α))
+    (h : subprogramBodyOf V f (processTokens V.uid f) K kw desig = .ok (some r)) : ∀ t ∈ r, t.Exact f :=
+  fun t ht => (subprogramBodyOf_exact V f K kw desig r h t ht).1
+
+theorem subprogramBodyOf_line (V : View α) (f : List α) (K : SubKeys) (kw desig : Nat) (r : List (Toi α))
+    (h : subprogramBodyOf V f (processTokens V.uid f) K kw desig = .ok (some r)) :
+    ∀ t ∈ r, ∃ s : Nat, t.start = some (s : Int) ∧ t.line = lineNo V.uid f s :=
+  fun t ht => (subprogramBodyOf_exact V f K kw desig r h t ht).2
+
+def xK : SubKeys := { declSemi := some ("w", "close"), bodySemi := some ("w", "semi"), procKw := some ("w", "open"), funcKw := some ("w", "kw") }
+
+/-- `extract_inner_pair` starts its minimum search at `lEndIndexes[-1]` (a position) and compares
+    DIFFERENCES with it strictly: a subprogram keyword at position 0 whose body ends at the last
+    semicolon is never selected and `lPair` stays unbound (`UnboundLocalError`; `none` in the model) -/
+theorem subprogramBody_unbound_witness :
+    (subprogramBodyOf xView [8, 3, 6, 0] (processTokens xView.uid [8, 3, 6, 0]) xK 8 3).toOption.map
+      (fun o => o.map fun r => r.map (fun t => (t.start, t.line, t.toks))) = some none := by
+  decide +kernel
+
+/-! #### non-vacuity (WP3, third part) -/
+
+def vFile : List Nat := [4, 3, 0, 7, 0, 8, 0]
+
+example : xShow (blankAbove vFile (processTokens xView.uid vFile) [⟨some ("w", "kw"), 8⟩]) = some [(some 2, 3, [0, 7])] := by
+  decide +kernel
+example : xShow (blankAboveWhenBetween [4, 3, 0, 7, 0, 8, 5, 0] (processTokens xView.uid [4, 3, 0, 7, 0, 8, 5, 0]) [⟨some ("w", "kw"), 8⟩]
+    (some ("w", "open")) (some ("w", "close"))) = some [(some 2, 3, [0, 7])] := by decide +kernel
+example : xShow (blankBelow vFile (processTokens xView.uid vFile) (fun _ => none) [⟨some ("w", "id"), 3⟩] none)
+    = some [(some 3, 1, [7, 0])] := by decide +kernel
+example : xShow (bolUnless vFile (processTokens xView.uid vFile) [⟨some ("w", "kw"), 8⟩] []) = some [(some 5, 3, [8])] := by
+  decide +kernel
+example : xShow (bolBetween [4, 3, 0, 8, 5, 0] (processTokens xView.uid [4, 3, 0, 8, 5, 0]) [⟨some ("w", "kw"), 8⟩]
+    (some ("w", "open")) (some ("w", "close")) false) = some [(some 3, 2, [8])] := by decide +kernel
+example : xShow (bolBetweenUnless [4, 3, 0, 8, 5, 0] (processTokens xView.uid [4, 3, 0, 8, 5, 0]) [⟨some ("w", "kw"), 8⟩]
+    (some ("w", "open")) (some ("w", "close")) [] false) = some [(some 3, 2, [8])] := by decide +kernel
+example : (subprogramBodyOf xView [0, 8, 3, 6, 0] (processTokens xView.uid [0, 8, 3, 6, 0]) xK 8 3).toOption.map
+    (fun o => o.map fun r => r.map (fun t => (t.start, t.toks, t.value))) = some (some [(some 1, [8, 3, 6], some 2)]) := by
+  decide +kernel
+
+end Vsgm.C18
+
+/-! =====================================================================================
+    WP3, fourth part — `VsgModel/Engine/Extract5.lean` (proofs: `Lemmas/Extract5Thms.lean`)
+    ===================================================================================== -/
+namespace Vsgm.C18
+open Vsgm Vsgm.TM Vsgm.TM.Lemmas Vsgm.TM.X Vsgm.TM.X.Lemmas
+
+variable {α : Type}
+
+/-- **get_tokens_starting_with_token_and_ending_with_one_of_possible_tokens**, partial: a region that
+    holds anything but whitespace / line breaks / comments is the slice at its recorded start.
+    Otherwise: `startingEnding_blank_region` -/
+theorem startingEnding_sliceExact_partial (V : View α) (P : PCls) (f : List α) (startCs endCs : List Cls)
+    (inclStart inclEnd earliest : Bool) (r : List (Toi α))
+    (h : startingEnding V P f (processTokens V.uid f) startCs endCs inclStart inclEnd earliest = .ok r) :
+    ∀ t ∈ r, (∃ x ∈ t.toks, isWsOrComment V P x = false) → t.Exact f :=
+  startingEnding_exact_partial V P f startCs endCs inclStart inclEnd earliest r h
+
+/-- `kw ws comment ) cr` without the bounding tokens: the region is recorded at the position of the
+    START token (one too small) and its tokens come out reversed -/
+theorem startingEnding_blank_region :
+    (startingEnding xView xP [8, 1, 2, 5, 0] (processTokens xView.uid [8, 1, 2, 5, 0]) [⟨some ("w", "kw"), 8⟩]
+        [⟨some ("w", "close"), 5⟩] false false false).toOption.map
+      (fun r => r.map (fun t => (t.start, t.line, t.toks))) = some [(some 0, 1, [2, 1])] := by
+  decide +kernel
+
+example : xShow (startingEnding xView xP [8, 1, 3, 1, 5, 0] (processTokens xView.uid [8, 1, 3, 1, 5, 0]) [⟨some ("w", "kw"), 8⟩]
+    [⟨some ("w", "close"), 5⟩] false false false) = some [(some 2, 1, [3])] := by decide +kernel
 
 end Vsgm.C18
